@@ -144,14 +144,23 @@ func (a *AuthenticateASCII) getPassword(response tq.Response, request tq.Request
 	if c == nil {
 		a.Debugf(request.Context, "[%v] user [%v] does not have an authenticator associated", request.Header.SessionID, a.username)
 		authenASCIIGetPasswordAuthenFail.Inc()
-		response.ReplyWithContext(
+		if _, err := response.ReplyWithContext(
 			a.Context(),
 			tq.NewAuthenReply(
 				tq.SetAuthenReplyStatus(tq.AuthenStatusFail),
 				tq.SetAuthenReplyServerMsg(fmt.Sprintf("authentication denied [%s]", a.username)),
 			),
 			a.recorderWriter,
-		)
+		); err != nil {
+			// a user name taken from a continue packet may be too long to be quoted in a server message;
+			// the request still gets its reply
+			response.Reply(
+				tq.NewAuthenReply(
+					tq.SetAuthenReplyStatus(tq.AuthenStatusFail),
+					tq.SetAuthenReplyServerMsg("authentication denied"),
+				),
+			)
+		}
 		return
 	}
 	NewResponseLogger(a.Context(), a.loggerProvider, c.Authenticate).Handle(response, request)
